@@ -463,7 +463,7 @@ func ruleC16d(c *Ctx) []*report.Result {
 					switch x := ins.(type) {
 					case *ssa.Defer:
 						callee := x.Common().StaticCallee()
-						if callee != nil && recvNamed(callee) == tPP && callee.Blocks != nil && f == fn {
+						if callee != nil && recvNamed(callee) == tPP && callee.Blocks != nil && (f == fn || depth > 0) {
 							m := map[ssa.Value]ssa.Value{}
 							for i, a := range x.Common().Args {
 								if i < len(callee.Params) {
@@ -477,6 +477,33 @@ func ruleC16d(c *Ctx) []*report.Result {
 						steps = append(steps, "defer "+calleeName(x))
 					case *ssa.Call:
 						n := calleeName(x)
+						// a closure made by the method and run by a helper:
+						// its body is read in place
+						if x.Common().StaticCallee() == nil && !x.Common().IsInvoke() {
+							if mc, ok := res(x.Common().Value).(*ssa.MakeClosure); ok {
+								if cf, ok := mc.Fn.(*ssa.Function); ok && cf.Blocks != nil && depth < 3 {
+									m := map[ssa.Value]ssa.Value{}
+									for k, v := range subst {
+										m[k] = v
+									}
+									for i, fv := range cf.FreeVars {
+										if i < len(mc.Bindings) {
+											// a captured variable is a cell: loads of it stand for the captured value
+											m[fv] = mc.Bindings[i]
+										}
+									}
+									for i, a := range x.Common().Args {
+										if i < len(cf.Params) {
+											m[cf.Params[i]] = res(a)
+										}
+									}
+									depth++
+									walk(cf, m)
+									depth--
+									continue
+								}
+							}
+						}
 						switch {
 						case n == "internal/rfmt.newPrinter":
 							np = x
